@@ -1,4 +1,5 @@
 """C02 — routing: first matching rule wins, default deny, nothing leaks on deny."""
+import harness
 from specs import dispatch
 
 
